@@ -18,6 +18,10 @@ use std::rc::Rc;
 
 type Proto = Protocol<'static, AnyLink>;
 
+thread_local! {
+    static DEPTH: std::cell::Cell<u32> = std::cell::Cell::new(0);
+}
+
 #[derive(Default)]
 struct Shared {
     /// per handler (index) the packets it saw, in order
@@ -39,7 +43,11 @@ fn mk_handler(sim: &Sim, node: &'static str, idx: usize, cfg: &HandlerCfg, own: 
         let _g = crate::alloc::SimDomain::enter();
         sim.event(31, idx as u64, hash_packet(p), || format!("{}.handler[{}] called with {}", node, idx, show_packet(p)));
         sh.borrow_mut().logs[idx].push(p.clone());
-        if acks {
+        // bounded re-entrance: a defect that loops a handler's own transmission back into
+        // the handlers must show up as a wrong observation, not as a stack overflow
+        let depth = DEPTH.with(|d| d.get());
+        if acks && depth < 3 {
+            DEPTH.with(|d| d.set(depth + 1));
             let n = sh.borrow().acks.len() as u16;
             let ev = AckEvent {
                 receiver_address: reply_to,
@@ -54,6 +62,7 @@ fn mk_handler(sim: &Sim, node: &'static str, idx: usize, cfg: &HandlerCfg, own: 
                 sim.count("handler_sent_from_delivery");
                 sh.borrow_mut().acks.push((pkt, any, r.is_ok()));
             }
+            DEPTH.with(|d| d.set(depth));
         }
     })
 }
